@@ -14,6 +14,7 @@ import (
 	"sort"
 	"strings"
 	"time"
+	"unicode/utf8"
 
 	"golang.org/x/telemetry/internal/telemetry"
 	. "golang.org/x/telemetry/internal/verifh/vhlib"
@@ -337,7 +338,45 @@ func GenIdent(r *Rand, cfg *telemetry.UploadConfig) Ident {
 	return id
 }
 
+// StrayBytes: whether near-miss names may differ from an approved name by bytes that are not
+// valid UTF-8 (set per case; the reports show such names as encoding/json renders them, see JSONName)
+var StrayBytes bool
+
+// StrayString: the stray byte sequence of the case (ONE kind per case: the rendering of names
+// as JSON keys, U+FFFD per stray byte, then stays one-to-one on the names of the case)
+var StrayString = "\xff"
+
+// StrayKinds: the stray sequences to choose from
+var StrayKinds = []string{"\xff", "\x80", "\xc3", "\xe2\x82", "\xfe"}
+
+// JSONName: a name as it appears as a JSON object key: encoding/json writes every byte that is
+// not part of a valid UTF-8 sequence as U+FFFD.
+func JSONName(s string) string {
+	if utf8.ValidString(s) {
+		return s
+	}
+	var b strings.Builder
+	for i := 0; i < len(s); {
+		r, n := utf8.DecodeRuneInString(s[i:])
+		if r == utf8.RuneError && n == 1 {
+			b.WriteString("\uFFFD")
+		} else {
+			b.WriteString(s[i : i+n])
+		}
+		i += n
+	}
+	return b.String()
+}
+
 func mutateName(r *Rand, s string) string {
+	if StrayBytes && r.Chance(50) {
+		// the approved name with one or two stray bytes (not valid UTF-8) somewhere
+		for n := 1 + r.Intn(2); n > 0; n-- {
+			i := r.Intn(len(s) + 1)
+			s = s[:i] + StrayString + s[i:]
+		}
+		return s
+	}
 	switch r.Intn(8) {
 	case 0:
 		if len(s) > 0 {
@@ -494,9 +533,10 @@ func GenCounts(r *Rand, cfg *telemetry.UploadConfig, prog string, maxn int) []KV
 		} else {
 			k = GenCounterName(r, cfg, prog)
 		}
-		if seen[k] || strings.Contains(k, "\"") {
+		if seen[k] || seen[JSONName(k)] || strings.Contains(k, "\"") {
 			continue
 		}
+		seen[JSONName(k)] = true
 		if strings.Contains(k, "\n") && r.Chance(6) {
 			// the same title with a deep, ditto-compressed stack around the name-length limit
 			d := GenDeepStack(r, k[:strings.Index(k, "\n")])
@@ -926,6 +966,15 @@ func RefFile(fs FileSpec) (map[string]string, map[string]uint64) {
 	return meta, count
 }
 
+// jsonNames: the Count map with its names as the JSON reports render them
+func jsonNames(count map[string]uint64) map[string]uint64 {
+	res := map[string]uint64{}
+	for k, v := range count {
+		res[JSONName(k)] = v
+	}
+	return res
+}
+
 // SameAsRef: does the implementation's parse agree with the reference reading
 func SameAsRef(fs FileSpec, meta map[string]string, count map[string]uint64, err error) bool {
 	if err != nil {
@@ -996,7 +1045,7 @@ func GenDeepStack(r *Rand, title string) string {
 // implementation's parser reads the same.
 func WFileRef(fs FileSpec, meta map[string]string, count map[string]uint64, err error) []string {
 	rm, rc := RefFile(fs)
-	return append(WFile(rm, rc), B(SameAsRef(fs, meta, count, err)))
+	return append(WFile(rm, jsonNames(rc)), B(SameAsRef(fs, meta, count, err)))
 }
 
 // WithdrawSomething: a configuration like cfg in which something that one of
@@ -1054,4 +1103,61 @@ func WithdrawSomething(r *Rand, cfg *telemetry.UploadConfig, files []FileSpec) *
 		}
 	}
 	return old
+}
+
+// GenNestedProgramsWeek: two approved programs whose package paths NEST (P and
+// P/e), P listing counters and stacks named e/<rest>, and a build of P/e that
+// recorded <rest> (not listed for P/e); also the mirror image and ordinary
+// items, so that every pair (program, name) whose concatenation coincides
+// with another pair's is present with different approval.
+func GenNestedProgramsWeek(r *Rand, x float64) (*telemetry.UploadConfig, []FileSpec) {
+	pair := Pick(r, [][2]string{{"golang.org/x/tools", "gopls"}, {"cmd", "go"}, {"example.com/a", "b/c"}})
+	P, e := pair[0], pair[1]
+	Q := P + "/" + e
+	ver := Pick(r, verPool[:4])
+	cfg := &telemetry.UploadConfig{GOOS: subset(r, osPool[:3], 1+r.Intn(2)), GOARCH: subset(r, archPool[:3], 1+r.Intn(2)),
+		GoVersion: subset(r, goPool[:3], 1+r.Intn(2)), SampleRate: Pick(r, []float64{0, 1})}
+	var rests []string
+	for _, c := range []string{"bug", "client:vscode", "x", "crash", "foo"} {
+		if r.Chance(45) {
+			rests = append(rests, c)
+		}
+	}
+	if len(rests) == 0 {
+		rests = []string{"bug"}
+	}
+	pp := &telemetry.ProgramConfig{Name: P, Versions: []string{ver, e + "/" + ver}}
+	qq := &telemetry.ProgramConfig{Name: Q, Versions: []string{ver}}
+	for _, rest := range rests {
+		if r.Bool() {
+			pp.Counters = append(pp.Counters, telemetry.CounterConfig{Name: e + "/" + rest, Rate: 1})
+		} else {
+			pp.Stacks = append(pp.Stacks, telemetry.CounterConfig{Name: e + "/" + rest, Rate: 1, Depth: 4})
+		}
+	}
+	qq.Counters = append(qq.Counters, telemetry.CounterConfig{Name: "own", Rate: 1})
+	if r.Bool() {
+		qq.Stacks = append(qq.Stacks, telemetry.CounterConfig{Name: "ownstack", Rate: 1, Depth: 4})
+	}
+	cfg.Programs = []*telemetry.ProgramConfig{pp, qq}
+	if r.Bool() {
+		cfg.Programs = []*telemetry.ProgramConfig{qq, pp}
+	}
+	gov, goos, goarch := Pick(r, cfg.GoVersion), Pick(r, cfg.GOOS), Pick(r, cfg.GOARCH)
+	val := func() uint64 { return uint64(1 + r.Intn(100)) }
+	var qc, pc []KV
+	for _, rest := range rests {
+		qc = append(qc, KV{rest, val()}, KV{rest + "\n" + Pick(r, framePool[:4]), val()})
+		pc = append(pc, KV{e + "/" + rest, val()}, KV{e + "/" + rest + "\n" + Pick(r, framePool[:4]), val()})
+	}
+	qc = append(qc, KV{"own", val()}, KV{"ownstack\nmain.f:1", val()})
+	pc = append(pc, KV{"own", val()})
+	files := []FileSpec{
+		{ID: Ident{Q, ver, gov, goos, goarch}, Counts: qc},
+		{ID: Ident{P, ver, gov, goos, goarch}, Counts: pc},
+	}
+	if r.Bool() {
+		files[0], files[1] = files[1], files[0]
+	}
+	return cfg, files
 }
